@@ -24,6 +24,8 @@ from geostructures import (GeoPolygon, GeoBox, GeoCircle, GeoEllipse, GeoRing, G
                            GeoPoint, Coordinate)
 from geostructures.multistructures import MultiGeoPoint, MultiGeoLineString, MultiGeoPolygon     # noqa: E402
 from geostructures.time import TimeInterval                                                      # noqa: E402
+from geostructures.collections import FeatureCollection                                          # noqa: E402
+import pickle                                                                                    # noqa: E402
 
 EPOCH = datetime(2020, 1, 1, tzinfo=timezone.utc)
 US = timedelta(microseconds=1)
@@ -117,6 +119,73 @@ READ_FN = {
 }
 
 
+def do_read_arg(s, o, arg):
+    """a read called with its documented arguments; [arg] is the properties dict handed to to_geojson"""
+    kw = {} if o[3] is None else {'k': o[3]}
+    if o[1] == 'RGeoJsonArgs':
+        x = call(lambda: s.to_geojson(properties=arg, **kw))
+    elif o[1] == 'RWktK':
+        x = call(lambda: s.to_wkt(**kw))
+    elif o[1] == 'RCoordsK':
+        x = call(lambda: s.bounding_coords(**kw))
+    else:
+        x = call(lambda: s.linear_rings(**kw))
+    return (x[0], canon(x[1])) if x[0] == 'Ok' else x[:2]
+
+
+ARGLESS = ['RProps', 'RGeoJson', 'RWkt', 'RDt', 'RHoles']     # reads that fill no cache
+
+
+def with_others(s):
+    """read-only operations that take another shape / a coordinate / go through a collection, run on a
+    structural clone of s (pickle round trip: same dt, properties, holes, geometry, empty caches), so the
+    receiver's caches - which the model tracks - are not disturbed.  Returns the clauses that fail."""
+    fails = []
+    c = pickle.loads(pickle.dumps(s))
+    others = [GeoPoint(Coordinate(5, 5)), GeoPoint(Coordinate(5, 5), dt=EPOCH, properties={'o': 1}),
+              GeoBox(Coordinate(4, 6), Coordinate(6, 4), dt=TimeInterval(EPOCH, EPOCH + timedelta(hours=1))),
+              GeoLineString([Coordinate(-1, -1), Coordinate(11, 11)], properties={'o': 2}),
+              MultiGeoPoint([GeoPoint(Coordinate(5, 5)), GeoPoint(Coordinate(50, 50))])]
+    base = {r: do_read(c, r) for r in ARGLESS}
+    st_c = public_state(c)
+    for j, other in enumerate(others):
+        st_o = public_state(other)
+        for nm, f in (('contains', lambda: c.contains(other)), ('intersects', lambda: c.intersects(other)),
+                      ('contains_shape', lambda: c.contains_shape(other)), ('intersects_shape', lambda: c.intersects_shape(other)),
+                      ('other.intersects', lambda: other.intersects(c))):
+            r1, r2 = call(f), call(f)
+            if r1[:2] != r2[:2]:
+                fails.append(('read_repeat', f'{nm}(other {j}) answered {r1[:2]} then {r2[:2]}'))
+            if public_state(c) != st_c:
+                fails.append(('read_pure', f'{nm}(other {j}) changed the public state of the receiver'))
+                st_c = public_state(c)
+            if public_state(other) != st_o:
+                fails.append(('args_untouched', f'{nm}(other {j}) changed the public state of its argument'))
+                st_o = public_state(other)
+    call(lambda: c.contains(Coordinate(5, 5)))
+    call(lambda: c.contains_coordinate(Coordinate(0, 0)))
+    for extra in ({'extra': 1}, {}, {'k0': 'x', 'datetime_start': 'mine'}):
+        arg, arg0 = dict(extra), dict(extra)
+        o = others[1]
+        st_o = public_state(o)
+        r1 = call(lambda: FeatureCollection([c, o]).to_geojson(properties=arg, k=6))
+        r2 = call(lambda: FeatureCollection([c, o]).to_geojson(properties=arg))
+        if r1[0] != 'Ok' or r2[0] != 'Ok':
+            fails.append(('collection', f'FeatureCollection.to_geojson(properties={extra}) raised {r1[1:]}{r2[1:]}'))
+        if arg != arg0:
+            fails.append(('args_untouched', f'FeatureCollection.to_geojson changed the dict passed as properties: {arg0} -> {arg}'))
+        if public_state(o) != st_o:
+            fails.append(('read_pure', f'FeatureCollection.to_geojson(properties={extra}) changed another member shape'))
+        if public_state(c) != st_c:
+            fails.append(('read_pure', f'FeatureCollection.to_geojson(properties={extra}) changed the public state of the shape'))
+            st_c = public_state(c)
+    after = {r: do_read(c, r) for r in ARGLESS}
+    for r in ARGLESS:
+        if after[r] != base[r]:
+            fails.append(('read_repeat', f'{r} answered {str(base[r])[:80]} before and {str(after[r])[:80]} after read-only calls with arguments'))
+    return fails
+
+
 def do_read(s, r):
     x = call(lambda: READ_FN[r](s))
     return (x[0], canon(x[1])) if x[0] == 'Ok' else x[:2]
@@ -143,10 +212,18 @@ def gen_ops(rng, n):
     for _ in range(n):
         t = rng.random()
         ip = rng.random() < .6
-        if t < .42:
+        if t < .30:
             ops.append(['Read', rng.choice(READS)])
+        elif t < .42:
+            k = rng.choice([None, 5, 12])
+            r = rng.choice(['RGeoJsonArgs', 'RGeoJsonArgs', 'RWktK', 'RCoordsK', 'RRingsK'])
+            if r == 'RGeoJsonArgs':
+                extra = [[key, rng.randint(10, 19)] for key in rng.sample(range(5), rng.choice([0, 1, 2]))]
+                ops.append(['ReadArg', r, extra, k])
+            else:
+                ops.append(['ReadArg', r, [], k or 7])
         elif t < .5:
-            ops.append(['ToPolygon'])
+            ops.append(['ToPolygon'] if rng.random() < .5 else ['ToPolygon', rng.choice([5, 12])])
         elif t < .64:
             a = rng.randint(-3, 6)
             d = rng.choice([None, [a * H, a * H], [a * H, (a + rng.randint(1, 4)) * H]])
@@ -165,6 +242,10 @@ def oplit(o):
         return f'(Read {o[1]})'
     if o[0] == 'ToPolygon':
         return 'ToPolygon'
+    if o[0] == 'ReadArg':
+        if o[1] == 'RGeoJsonArgs':
+            return '(Read (RGeoJsonArgs ' + listlit([f'({k}, {v})' for k, v in o[2]]) + '))'
+        return f'(Read {o[1]})'
     if o[0] == 'SetDt':
         return f'(SetDt {dlit(o[1])} {blit(o[2])})'
     if o[0] == 'BufferDt':
@@ -199,9 +280,32 @@ def run_history(kind, nholes, d0, p0, ops, obs_at=None):
             if mid != before or public_state(s) != before:
                 fails.append((i, 'read_pure', f'{o[1]} changed the public state of the receiver'))
             ret = None
+        elif o[0] == 'ReadArg':
+            base = {r: do_read(s, r) for r in ARGLESS}
+            arg = {f'k{k}': v for k, v in o[2]}
+            arg0 = dict(arg)
+            r1 = do_read_arg(s, o, arg)
+            mid = public_state(s)
+            r2 = do_read_arg(s, o, arg)
+            res = ('Ok', None) if r1[0] == 'Ok' else r1
+            if r1 != r2:
+                fails.append((i, 'read_repeat', f'{o[1]} with arguments: {str(r1)[:80]} then {str(r2)[:80]}'))
+            if mid != before or public_state(s) != before:
+                fails.append((i, 'read_pure', f'{o[1]} called with arguments {arg0}, k={o[3]} changed the public state of the receiver'))
+            if arg != arg0:
+                fails.append((i, 'args_untouched', f'{o[1]} changed the dict passed as properties: {arg0} -> {arg}'))
+            for r in ARGLESS:
+                again = do_read(s, r)
+                if again != base[r]:
+                    fails.append((i, 'read_repeat', f'{r} answered {str(base[r])[:80]} before and {str(again)[:80]} after {o[1]} with arguments'))
+            fr = construct(kind, nholes, of_dt(s.dt), [(int(k[1:]), v) for k, v in s._properties.items() if k[1:].isdigit()])
+            rf = do_read_arg(fr, o, dict(arg0))
+            if rf != r1:
+                fails.append((i, 'obs_as_fresh', f'{o[1]} with arguments: receiver {str(r1)[:90]} vs fresh {str(rf)[:90]}'))
+            ret = None
         else:
             if o[0] == 'ToPolygon':
-                res = call(lambda: s.to_polygon())
+                res = call(lambda: s.to_polygon(**({'k': o[1]} if len(o) > 1 else {})))
             elif o[0] == 'SetDt':
                 d = o[1]
                 arg = mk_dt(d)
@@ -241,13 +345,16 @@ def run_history(kind, nholes, d0, p0, ops, obs_at=None):
         fresh = construct(kind, nholes, dt_now, [(int(k[1:]), v) for k, v in props_now])
         if list(fresh._properties.items()) != props_now:
             fresh._properties = dict(props_now)
+        if i == len(ops) - 1 or i % 3 == 0:
+            for f in with_others(s):
+                fails.append((i,) + f)
         of, os_ = observe_all(fresh), observe_all(s)
         for r in READS:
             if of[r] != os_[r]:
                 fails.append((i, 'obs_as_fresh', f'{r} after {o}: receiver {str(os_[r])[:90]} vs fresh {str(of[r])[:90]}'))
         if ret is not None and ret is not s:
             if o[0] == 'ToPolygon':
-                fr = call(lambda: fresh.to_polygon())
+                fr = call(lambda: fresh.to_polygon(**({'k': o[1]} if len(o) > 1 else {})))
                 fresh_ret = fr[1] if fr[0] == 'Ok' else None
             else:
                 fresh_ret = construct(kind, nholes, of_dt(ret.dt), [(int(k[1:]), v) for k, v in ret._properties.items()])
@@ -300,6 +407,11 @@ CORPUS = [
     ('KEllipse', 0, [0, 2 * H], [], [['BufferDt', -2 * H, True], ['BufferDt', -H, True], ['BufferDt', -H, False], ['Read', 'RDt']]),
     ('KMPoly', 0, [0, H], [], [['Read', 'RVolume'], ['BufferDt', H, True], ['Read', 'RVolume'], ['Read', 'RArea']]),
     ('KLine', 0, [0, H], [[2, 3]], [['ToPolygon'], ['SetProp', 2, 4, True], ['Read', 'RGeoJson'], ['Read', 'RArea']]),
+    # to_geojson(properties=...) on a shape WITHOUT dt must not write the caller's keys into the shape
+    ('KPolygon', 0, None, [], [['ReadArg', 'RGeoJsonArgs', [[4, 1]], None], ['Read', 'RProps'], ['SetDt', [0, H], True, False], ['Read', 'RGeoJson']]),
+    ('KPoint', 0, None, [[0, 1]], [['ReadArg', 'RGeoJsonArgs', [[0, 7], [4, 1]], 5], ['Read', 'RProps'], ['ReadArg', 'RGeoJsonArgs', [], None], ['Read', 'RGeoJson']]),
+    ('KCircle', 1, [0, H], [[1, 1]], [['ReadArg', 'RGeoJsonArgs', [[1, 9]], 12], ['ReadArg', 'RWktK', [], 5], ['ReadArg', 'RCoordsK', [], 5], ['ReadArg', 'RRingsK', [], 5], ['ToPolygon', 5], ['Read', 'RProps']]),
+    ('KMLine', 0, None, [], [['ReadArg', 'RGeoJsonArgs', [[2, 3]], None], ['ReadArg', 'RCoordsK', [], 5], ['Read', 'RProps']]),
     # D32: the polygon returned by GeoRing.to_polygon() shared the ring's _properties dict
     ('KRing', 1, None, [[1, 2]], [['ToPolygon'], ['Read', 'RProps']]),
     ('KWedge', 0, [0, H], [[0, 4], [2, 7]], [['ToPolygon'], ['Read', 'RGeoJson'], ['ToPolygon']]),
@@ -345,7 +457,7 @@ def main():
         cases.append(lit)
         meta.append(m)
         ck.count(kind)
-        if any(o[0] not in ('Read', 'ToPolygon') for o in ops) and any(o[0] == 'Read' for o in ops):
+        if any(o[0] not in ('Read', 'ReadArg', 'ToPolygon') for o in ops) and any(o[0] in ('Read', 'ReadArg') for o in ops):
             distinct.add(json.dumps([kind, nh, d0, p0, ops]))
     ck.cov['evaluations'] = sum(len(m['ops']) for m in meta)
     ck.cov['histories'] = len(cases)
